@@ -624,6 +624,57 @@ def callShared {V : Type} (I : Interp V) (s : SharedProg V) (kw : Kw V) : Shared
         | none => ({ s with env := env' }, .error .emptyEnv)
         | some v => ({ s with env := env'.take s.prog.constants.length }, .ok v)   -- `del env[len(constants):]`
 
+/-! ## the raw default of `ops.getitem` (funsor/ops/builtin.py:45-49), the op a compiled `x[:, …, i]` calls
+
+  `getitem(lhs, rhs, offset) = lhs[(slice(None),) * offset + (rhs,)]`: select index `rhs` along axis `offset`;
+  the other axes keep their order. -/
+
+inductive Arr where
+  | leaf (v : Int)
+  | node (items : List Arr)
+  deriving Repr, Inhabited
+
+mutual
+def Arr.beq : Arr → Arr → Bool
+  | .leaf a, .leaf b => a == b
+  | .node xs, .node ys => Arr.beqList xs ys
+  | _, _ => false
+def Arr.beqList : List Arr → List Arr → Bool
+  | [], [] => true
+  | x :: xs, y :: ys => Arr.beq x y && Arr.beqList xs ys
+  | _, _ => false
+end
+
+mutual
+/-- `getitemAt k i a`: index `i` along axis `k` (`none` = IndexError / too few axes). -/
+def getitemAt : Nat → Nat → Arr → Option Arr
+  | _, _, .leaf _ => none
+  | 0, i, .node xs => xs[i]?
+  | k + 1, i, .node xs => (getitemAtAll k i xs).map .node
+def getitemAtAll : Nat → Nat → List Arr → Option (List Arr)
+  | _, _, [] => some []
+  | k, i, x :: xs =>
+    match getitemAt k i x, getitemAtAll k i xs with
+    | some y, some ys => some (y :: ys)
+    | _, _ => none
+end
+
+/-- rows of a rank-≥2 array as lists -/
+def Arr.rows : Arr → Option (List (List Arr))
+  | .node xs => xs.mapM fun | .node r => some r | .leaf _ => none
+  | .leaf _ => none
+
+def transposeRows : List (List Arr) → List (List Arr)
+  | [] => []
+  | r :: rs => (List.range r.length).map fun j => (r :: rs).filterMap (·[j]?)
+
+/-- `lhs.swapaxes(0, 2)[i]` on a rank-3 array (seeded defect C18_10): result[b][a] = lhs[a][b][i], i.e. the
+    transpose of the correct selection along axis 2. -/
+def swapaxes02ThenIndex (i : Nat) (a : Arr) : Option Arr :=
+  match getitemAt 2 i a with
+  | none => none
+  | some sel => (sel.rows).map fun rs => .node ((transposeRows rs).map .node)
+
 /-! ## printing of parametrised ops (`program._print_op`, funsor/ops/program.py:101-108)
 
   An op instance is its class plus the current value of every parameter, in signature order
